@@ -185,6 +185,37 @@ def run(chk):
                'this entry point subscripts the profile but never tests the legacy tag \'mp\' (its sibling does): '
                'a legacy profile is used as if it were a structure', fi.loc, key='C18-S|%s|legacy' % fq)
 
+    # ---- N: the way a handed-down reference travels is decided by the element and the text, not by process defaults
+    chk.rule('C18-N', 'the methods through which a profile reference is handed down (parse_child / parse_children of the element classes, '
+                      'ElementList.set / create_element) and the core functions they call directly consult no process-wide default '
+                      'unconditionally: whether the profile applies must not depend on set_default_*')
+    from .c17 import none_guard as _ng, GETTERS as _GETTERS
+    path_ = {fq_ for fq_ in cg.sites if fq_.startswith('core.') and fq_.rsplit('.', 1)[-1] in ('parse_child', 'parse_children')}
+    path_ |= {'core.ElementList.set', 'core.ElementList.create_element'}
+    for fq_ in sorted(path_):
+        for s_ in cg.sites.get(fq_, ()):
+            if s_.kind == 'call':
+                for t_ in s_.targets:
+                    if t_.kind == 'func' and t_.func.module.name == 'core' and t_.func.cls is None:
+                        path_ = path_ | {t_.func.qualname}
+    nn_ = 0
+    for fq_ in sorted(path_):
+        nn_ += 1
+        bad_ = []
+        for s_ in cg.sites.get(fq_, ()):
+            if s_.kind != 'call':
+                continue
+            for t_ in s_.targets:
+                if t_.kind == 'func' and t_.func.qualname.startswith('__init__.get_default_') and t_.func.name in _GETTERS and \
+                        _ng(s_.node) is None:
+                    bad_.append((t_.func.name, s_.lineno))
+        fi_ = ix.functions.get(fq_)
+        chk.ob('C18-N', '%s decides without process defaults' % fq_, not bad_,
+               '%s() is consulted unconditionally at line %s: whether the reference of the profile is kept for a child then depends on '
+               'the process-wide defaults, not on the message' % (bad_[0] if bad_ else ('', '')),
+               fi_.loc if fi_ is not None else fq_, key='C18-N|%s' % fq_)
+    chk.floor('functions on the reference hand-down path', nn_, 8)
+
     chk.rule('C18-G', 'profile errors (MessageProfileNotFound, LegacyMessageProfile) are raised under the same conditions as in the reviewed tree')
     from . import guardrules
     ng_ = guardrules.check(chk, c, 'C18-G', ['core.Message.__init__', 'parser.parse_message', 'core.Message.parse_children'])
